@@ -50,3 +50,12 @@ Theorem C05_nonvacuous :
   code_arith [demo_region] FSub (2^44 + 64) 100 4 = Abort /\
   sizeof labi_lp32 (TInt ILong) = 4 /\ sizeof labi_host (TInt ILong) = 8.
 Proof. split; [exact demo_world_ok|]. vm_compute. repeat split. Qed.
+
+(* fixed defect D16 (regression witness): number + pointer used to be native arithmetic on the raw pointer *)
+Theorem C05_number_plus_pointer_before_fix_refuted :
+  let r := {| rbase := 2^44; rsize := 65536 |} in
+  radd_before_fix (2^44 + 65528) 3 8 = Ok (2^44 + 65552) /\
+  ptr_arith_spec [r] false (2^44 + 65528) 3 4 = Abort /\
+  ptr_arith [r] false (2^44 + 65528) 3 4 = Abort /\
+  radd_before_fix 0 5 8 = Ok 40 /\ ptr_arith [r] false 0 5 4 = Abort.
+Proof. exact radd_before_fix_refuted. Qed.
